@@ -6,9 +6,11 @@ package props
 import (
 	"fmt"
 	"testing"
+	"time"
 
 	"github.com/zenon-network/go-zenon/chain/nom"
 	"github.com/zenon-network/go-zenon/common/types"
+	"github.com/zenon-network/go-zenon/consensus"
 
 	"verifharness/pbt"
 	"verifharness/sim"
@@ -191,6 +193,21 @@ func TestC02(t *testing.T) {
 			"produce2": h.ActProduce,
 			// missed slots, finished ticks and epochs (stored consensus points, reward updates)
 			"skipAhead": func() { h.Produce(c.Int("skipAhead", 4, 90)) },
+			// the producer answers consensus queries (statistics of the running epoch, weights, schedule - what a pillar
+			// listing over RPC makes it compute), often right before production stalls for the rest of the epoch
+			"producerAnswersQueries": func() {
+				_ = sim.ConsensusSummary(h.A)
+				c.Class("producer-answers-consensus-queries")
+				if c.Bool("stallAfterQuery") && !h.Dead {
+					ep := int64(consensus.EpochDuration / time.Second)
+					into := (h.A.Frontier().Timestamp.Unix() - h.W.Spec.Timestamp) % ep
+					left := int((ep-into)/10) + c.Int("stall.extra", 0, 40)
+					if left > 0 {
+						h.Produce(left)
+						c.Class("production-stalls-to-the-end-of-the-epoch-after-a-query")
+					}
+				}
+			},
 		}, nil)
 		for i := 0; i < 2 && !h.Dead; i++ {
 			h.Produce(0)
